@@ -172,6 +172,14 @@ theorem accepted_from_delta {a s : Snap} {d : Delta} {ws : List Warning} (ha : a
     (hd : ∀ p ∈ d.updated, I32 p.1 ∧ ∀ v ∈ p.2, I32 v) (h : a.readWithDelta d = .ok (s, ws)) : Accepted s :=
   accepted_of_readWithDelta ha hd h
 
+/-- An accepted delta is never larger than its input either: three header words, one word per
+deleted key, two words per updated item plus its data words fit into the input size (integers, or
+bytes) — `Delta::read` only ever pushes what it has read. -/
+theorem accepted_delta_bounded (objSize : Nat → Option Nat) {src : Src} {d : Delta} {ws : List Warning}
+    (h : readDelta objSize src = .ok (d, ws)) :
+    3 + d.deleted.length + 2 * d.updated.length + dataLen d.updated ≤ src.size :=
+  readDelta_alloc objSize h
+
 /-- `Snap::recycle`'s numbering loop cannot overflow for *any* item list (since the fix of D20):
 the counter stays `≤ 0x8000`, so `next_type_id + 256` fits a `u16`. -/
 theorem recycle_numbering_total (m : Items) (n : Nat) (h : n ≤ 32768) :
